@@ -241,6 +241,24 @@ theorem inv_seqexpr {env : CEnv} {st st' : HSt} {ce : CE} {name exts args params
   obtain ⟨rfl, rfl⟩ := h
   exact ⟨cargs, s1, cv, s2, h1, h2, rfl, rfl⟩
 
+theorem inv_callx {env : CEnv} {st st' : HSt} {ce : CE} {name exts args ret params}
+    (h : compileExprH env st (.callx name exts args ret params) = .ok (ce, st')) :
+    ∃ cargs s1, compileArgsH env st args params = .ok (cargs, s1) ∧
+      ce = { il := .varl (tmpName s1.hyb), ty := ret.toVT, kind := .plain } ∧
+      st' = callxState s1 name exts cargs ret := by
+  simp only [compileExprH] at h
+  obtain ⟨⟨cargs, s1⟩, h1, h⟩ := bind_ok h
+  simp only [Except.ok.injEq, Prod.mk.injEq] at h
+  obtain ⟨rfl, rfl⟩ := h
+  exact ⟨cargs, s1, h1, rfl, rfl⟩
+
+theorem inv_xmacro {env : CEnv} {st st' : HSt} {ce : CE} {name exts ret}
+    (h : compileExprH env st (.xmacro name exts ret) = .ok (ce, st')) :
+    ce = { il := .macro (macroRzName name) (extArgs exts), ty := ret.toVT, kind := .plain } ∧ st' = st := by
+  simp only [compileExprH, Except.ok.injEq, Prod.mk.injEq] at h
+  obtain ⟨rfl, rfl⟩ := h
+  exact ⟨rfl, rfl⟩
+
 theorem inv_leaf {env : CEnv} {st st' : HSt} {ce : CE} {e : CExpr}
     (hl : (∃ n k t, e = .reg n k t) ∨ (∃ v h s, e = .lit v h s) ∨ (∃ n t, e = .var n t) ∨ (∃ s w t, e = .load s w t))
     (h : compileExprH env st e = .ok (ce, st')) :
